@@ -306,12 +306,33 @@ impl Epoch {
 
     #[must_use]
     pub fn next_weekday_at_midnight(&self, weekday: Weekday) -> Self {
-        self.next(weekday).with_hms_strict(0, 0, 0)
+        self.next_on_own_calendar(weekday).with_hms_strict(0, 0, 0)
     }
 
     #[must_use]
     pub fn next_weekday_at_noon(&self, weekday: Weekday) -> Self {
-        self.next(weekday).with_hms_strict(12, 0, 0)
+        self.next_on_own_calendar(weekday).with_hms_strict(12, 0, 0)
+    }
+
+    /// Same as `next`, but the weekday is that of the calendar date in this epoch's own time scale: the date
+    /// whose midnight or noon is then taken by `with_hms_strict` is the one of that calendar.
+    fn next_on_own_calendar(&self, weekday: Weekday) -> Self {
+        let delta_days = self.weekday_of_gregorian_date() - weekday;
+        if delta_days == Duration::ZERO {
+            *self + 7 * Unit::Day
+        } else {
+            *self + delta_days
+        }
+    }
+
+    /// Same as `previous`, but the weekday is that of the calendar date in this epoch's own time scale.
+    fn previous_on_own_calendar(&self, weekday: Weekday) -> Self {
+        let delta_days = weekday - self.weekday_of_gregorian_date();
+        if delta_days == Duration::ZERO {
+            *self - 7 * Unit::Day
+        } else {
+            *self - delta_days
+        }
     }
 
     #[must_use]
@@ -340,12 +361,14 @@ impl Epoch {
 
     #[must_use]
     pub fn previous_weekday_at_midnight(&self, weekday: Weekday) -> Self {
-        self.previous(weekday).with_hms_strict(0, 0, 0)
+        self.previous_on_own_calendar(weekday)
+            .with_hms_strict(0, 0, 0)
     }
 
     #[must_use]
     pub fn previous_weekday_at_noon(&self, weekday: Weekday) -> Self {
-        self.previous(weekday).with_hms_strict(12, 0, 0)
+        self.previous_on_own_calendar(weekday)
+            .with_hms_strict(12, 0, 0)
     }
 }
 
